@@ -19,7 +19,7 @@ RULE = ("configurations from the lattice 16 flag combinations x velocity bins {1
         "pieces are tokenised under the closure contract. Irregular bin counts form a separate stratum (known finding). "
         "A configuration is non-trivial when its whole vocabulary was enumerated; distinct by parameters.")
 PLAN = {"quick": {"cases": 320, "jobs": 4, "timeout": 900},
-        "thorough": {"cases": 17000, "jobs": 16, "timeout": 3000, "budget_s": 420}}
+        "thorough": {"cases": 170000, "jobs": 16, "timeout": 3000, "budget_s": 360}}
 FLOORS = {"quick": {"c02.tokens_enumerated": 250000, "tokenise.closure.armed": 600, "#c02.flags.": 16, "c02.configurations": 280, "c02.sibling_configurations": 200},
           "thorough": {"c02.tokens_enumerated": 10000000, "#c02.flags.": 16}}
 
